@@ -6,6 +6,10 @@ use std::io::Write;
 use crate::prng::Rng;
 
 pub mod c01;
+pub mod c16;
+pub mod c14;
+pub mod c08;
+pub mod c07;
 pub mod c02;
 pub mod c03;
 pub mod c04;
@@ -265,6 +269,10 @@ pub fn norm_loc(loc: &str) -> String {
 pub fn dispatch(cfg: &RunCfg, rep: &mut Report) -> bool {
     match cfg.prop.as_str() {
         "C01" => c01::run(cfg, rep),
+        "C16" => c16::run(cfg, rep),
+        "C14" => c14::run(cfg, rep),
+        "C08" => c08::run(cfg, rep),
+        "C07" => c07::run(cfg, rep),
         "C02" => c02::run(cfg, rep),
         "C03" => c03::run(cfg, rep),
         "C04" => c04::run(cfg, rep),
